@@ -62,6 +62,7 @@ type specNode struct {
 	behind bool
 	f      int
 	closed bool // IgnoreCase class whose ranges were case-closed at parse time
+	sub    *specNode
 }
 
 // ---- s-expression reader
@@ -144,6 +145,10 @@ func (r *specReader) node() *specNode {
 			case "c":
 				it.cat = r.tok()
 				it.neg = r.num() != 0
+			case "sub":
+				n.sub = r.node()
+				r.close()
+				continue
 			}
 			r.close()
 			n.items = append(n.items, it)
@@ -218,6 +223,9 @@ func specCloseCase(n *specNode) {
 	for _, k := range n.kids {
 		specCloseCase(k)
 	}
+	if n.sub != nil {
+		specCloseCase(n.sub)
+	}
 	if n.k != skClass || n.f&sfI == 0 {
 		return
 	}
@@ -270,6 +278,24 @@ func specCat(cat string, f int, c rune) bool {
 		}
 		return unicode.IsSpace(c)
 	}
+	switch cat {
+	case "posix_alpha":
+		return c >= 'a' && c <= 'z' || c >= 'A' && c <= 'Z'
+	case "posix_digit":
+		return c >= '0' && c <= '9'
+	case "posix_upper":
+		return c >= 'A' && c <= 'Z'
+	case "posix_space":
+		return c == ' ' || c >= 9 && c <= 13
+	case "posix_word":
+		return c >= '0' && c <= '9' || c >= 'a' && c <= 'z' || c >= 'A' && c <= 'Z' || c == '_'
+	case "posix_alnum":
+		return c >= '0' && c <= '9' || c >= 'a' && c <= 'z' || c >= 'A' && c <= 'Z'
+	case "posix_punct":
+		return c >= '!' && c <= '/' || c >= ':' && c <= '@' || c >= '[' && c <= '`' || c >= '{' && c <= '~'
+	case "posix_xdigit":
+		return c >= '0' && c <= '9' || c >= 'a' && c <= 'f' || c >= 'A' && c <= 'F'
+	}
 	if t, ok := unicode.Categories[cat]; ok {
 		return unicode.Is(t, c)
 	}
@@ -317,7 +343,11 @@ func verifSumInClass(n *specNode, c rune) bool {
 	if n.f&sfI != 0 && !in && !n.closed {
 		in = specRangesIn(n, unicode.SimpleFold(c))
 	}
-	return in != n.neg
+	res := in != n.neg
+	if res && n.sub != nil {
+		res = !verifSumInClass(n.sub, c)
+	}
+	return res
 }
 
 // verifSumLitEq: does text rune c match pattern literal pat (with flags f)?
